@@ -172,7 +172,11 @@ func checkMatrix(bm *gozxing.BitMatrix, m *mmodel, r *fw.Rand) string {
 		}
 	}
 	var reuse *gozxing.BitArray
-	if r.Bool() {
+	if r.Intn(4) == 0 {
+		// a caller-supplied row that is too narrow (by a few bits: often the same number of 32-bit
+		// words as the matrix row) is replaced by one of the full width
+		reuse = gozxing.NewBitArray(m.w - minInt(m.w, 1+r.Intn(12)))
+	} else if r.Bool() {
 		reuse = gozxing.NewBitArray(m.w + r.Intn(40) + 32*r.Intn(3))
 		for i := 0; i < reuse.GetSize(); i++ {
 			if r.Bool() {
@@ -439,13 +443,20 @@ func c16Matrix(r *fw.Rec, w, h int) {
 			trace = append(trace, "Rotate90")
 		case 14:
 			sep := []string{"\n", "\r\n", "\n\n", "\r"}[rng.Intn(4)]
-			s := bm.ToStringWithLineSeparator("1", "0", sep)
-			if sep == "\n" && s != bm.ToString("1", "0") {
+			// cell strings of equal and of different lengths (neither a prefix of the other)
+			pair := [][2]string{{"1", "0"}, {"1", "0"}, {"#", "  "}, {"1", "00"}, {"XX", "."}, {"[]", "  "}, {"x", "-+-"}}[rng.Intn(7)]
+			s := bm.ToStringWithLineSeparator(pair[0], pair[1], sep)
+			if sep == "\n" && s != bm.ToString(pair[0], pair[1]) {
 				trace = append(trace, "ToString")
 				fail("ToString differs from ToStringWithLineSeparator with \\n")
 				return
 			}
-			nb, e := gozxing.ParseStringToBitMatrix(s, "1", "0")
+			if want := m.str(pair[0], pair[1], sep); s != want {
+				trace = append(trace, "ToString")
+				fail(fmt.Sprintf("ToStringWithLineSeparator(%q, %q, %q) = %q, cell by cell %q", pair[0], pair[1], sep, trunc(s, 80), trunc(want, 80)))
+				return
+			}
+			nb, e := gozxing.ParseStringToBitMatrix(s, pair[0], pair[1])
 			trace = append(trace, fmt.Sprintf("Parse(ToString sep=%q)", sep))
 			if e != nil {
 				fail("Parse(ToString(m)) failed: " + e.Error())
